@@ -206,4 +206,191 @@ theorem matchAt_group {s : Array Nat} {r : Re} {p : Nat} {st : St} (g : Nat)
   refine ⟨a, b, ?_, this⟩
   simp [St.group, capOf, e1, hc']
 
+/-! ### groups that may be unset: position and minimal length of whatever was captured -/
+
+/-- every `group g` node of the regex has a body of minimal length at least `L` -/
+def grpMin (g L : Nat) : Re → Bool
+  | .seq a b | .alt a b => grpMin g L a && grpMin g L b
+  | .rep _ _ _ r | .look _ _ r => grpMin g L r
+  | .group i r => (i != g || decide (L ≤ minLen r)) && grpMin g L r
+  | _ => true
+
+/-- `st'` extends `st` by at least `n` characters; the new captures lie inside `[st.pos, st'.pos]`
+    and those of group `g` are at least `L` long -/
+def ExtL (g L n : Nat) (st st' : St) : Prop :=
+  st.pos + n ≤ st'.pos ∧ ∃ new, st'.caps = new ++ st.caps ∧
+    ∀ c ∈ new, st.pos ≤ c.2.1 ∧ c.2.1 ≤ c.2.2 ∧ c.2.2 ≤ st'.pos ∧ (c.1 = g → c.2.1 + L ≤ c.2.2)
+
+theorem ExtL.refl (g L : Nat) (st : St) : ExtL g L 0 st st :=
+  ⟨Nat.le_refl _, [], by simp, by simp⟩
+
+theorem ExtL.step (g L : Nat) (st : St) (n : Nat) : ExtL g L n st { st with pos := st.pos + n } :=
+  ⟨by simp, [], by simp, by simp⟩
+
+theorem ExtL.trans {g L n1 n2 st st1 st2} (h1 : ExtL g L n1 st st1) (h2 : ExtL g L n2 st1 st2) :
+    ExtL g L (n1 + n2) st st2 := by
+  obtain ⟨p1, l1, e1, c1⟩ := h1
+  obtain ⟨p2, l2, e2, c2⟩ := h2
+  refine ⟨by omega, l2 ++ l1, by rw [e2, e1, List.append_assoc], ?_⟩
+  intro c hc
+  rcases List.mem_append.mp hc with hc | hc
+  · have := c2 c hc; exact ⟨by omega, this.2.1, this.2.2.1, this.2.2.2⟩
+  · have := c1 c hc; exact ⟨this.1, this.2.1, by omega, this.2.2.2⟩
+
+theorem ExtL.weaken {g L n n' st st'} (h : ExtL g L n st st') (hn : n' ≤ n) : ExtL g L n' st st' := by
+  obtain ⟨p1, l1, e1, c1⟩ := h
+  exact ⟨by omega, l1, e1, c1⟩
+
+def GoodL (g L n : Nat) (f : St → K → Option St) : Prop :=
+  ∀ st k res, f st k = some res → ∃ st', ExtL g L n st st' ∧ k st' = some res
+
+theorem loop_capsL (body : St → K → Option St) (g L n : Nat) (gr : Bool) (hb : GoodL g L n body) :
+    ∀ fuel mn mx, GoodL g L (mn * n) (fun st k => loop body gr fuel mn mx st k) := by
+  intro fuel
+  induction fuel with
+  | zero => intro mn mx st k res h; simp [loop] at h
+  | succ fuel ih =>
+    intro mn mx st k res h
+    simp only [loop] at h
+    generalize hmdef : (if mx == some 0 then none else
+          body st (fun st' => if st'.pos ≤ st.pos then none else
+            loop body gr fuel (mn - 1) (mx.map (· - 1)) st' k)) = more at h
+    have hmore : ∀ res, more = some res → ∃ st', ExtL g L (mn * n) st st' ∧ k st' = some res := by
+      intro res hm
+      rw [← hmdef] at hm
+      split at hm
+      · cases hm
+      · obtain ⟨st1, h1, h3⟩ := hb _ _ _ hm
+        split at h3
+        · cases h3
+        · obtain ⟨st2, h4, h6⟩ := ih (mn - 1) (mx.map (· - 1)) st1 k res h3
+          refine ⟨st2, (h1.trans h4).weaken ?_, h6⟩
+          cases mn with
+          | zero => simp
+          | succ m => simp [Nat.succ_mul, Nat.add_comm]
+    split at h
+    · exact hmore _ h
+    · have hz : mn = 0 := by omega
+      subst hz
+      split at h
+      · rcases orElse_some h with h' | ⟨_, h'⟩
+        · exact hmore _ h'
+        · exact ⟨st, by simpa using ExtL.refl g L st, h'⟩
+      · rcases orElse_some h with h' | ⟨_, h'⟩
+        · exact ⟨st, by simpa using ExtL.refl g L st, h'⟩
+        · exact hmore _ h'
+
+theorem m_capsL (s : Array Nat) (g L : Nat) :
+    ∀ r, noLook r = true → grpMin g L r = true → GoodL g L (minLen r) (m s r) := by
+  intro r
+  induction r with
+  | eps => intro _ _ st k res h; exact ⟨st, ExtL.refl g L st, by simpa [m] using h⟩
+  | lit c =>
+    intro _ _ st k res h
+    simp only [m] at h
+    split at h
+    · exact ⟨_, ExtL.step g L st 1, h⟩
+    · cases h
+  | notLit c =>
+    intro _ _ st k res h
+    simp only [m] at h
+    split at h
+    · split at h
+      · exact ⟨_, ExtL.step g L st 1, h⟩
+      · cases h
+    · cases h
+  | any da =>
+    intro _ _ st k res h
+    simp only [m] at h
+    split at h
+    · split at h
+      · exact ⟨_, ExtL.step g L st 1, h⟩
+      · cases h
+    · cases h
+  | cls neg items =>
+    intro _ _ st k res h
+    simp only [m] at h
+    split at h
+    · split at h
+      · exact ⟨_, ExtL.step g L st 1, h⟩
+      · cases h
+    · cases h
+  | seq a b iha ihb =>
+    intro hn hg st k res h
+    simp only [noLook, Bool.and_eq_true] at hn
+    simp only [grpMin, Bool.and_eq_true] at hg
+    simp only [m] at h
+    obtain ⟨st1, h1, h3⟩ := iha hn.1 hg.1 _ _ _ h
+    obtain ⟨st2, h4, h6⟩ := ihb hn.2 hg.2 _ _ _ h3
+    exact ⟨st2, h1.trans h4, h6⟩
+  | alt a b iha ihb =>
+    intro hn hg st k res h
+    simp only [noLook, Bool.and_eq_true] at hn
+    simp only [grpMin, Bool.and_eq_true] at hg
+    simp only [m] at h
+    rcases orElse_some h with h' | ⟨_, h'⟩
+    · obtain ⟨st1, h1, h3⟩ := iha hn.1 hg.1 _ _ _ h'
+      exact ⟨st1, h1.weaken (by simp [minLen]; omega), h3⟩
+    · obtain ⟨st1, h1, h3⟩ := ihb hn.2 hg.2 _ _ _ h'
+      exact ⟨st1, h1.weaken (by simp [minLen]; omega), h3⟩
+  | group i r ih =>
+    intro hn hg st k res h
+    simp only [noLook] at hn
+    simp only [grpMin, Bool.and_eq_true, Bool.or_eq_true, bne_iff_ne, decide_eq_true_eq] at hg
+    simp only [m] at h
+    obtain ⟨st1, ⟨p1, n1, e1, c1⟩, h3⟩ := ih hn hg.2 _ _ _ h
+    refine ⟨{ st1 with caps := (i, st.pos, st1.pos) :: st1.caps },
+      ⟨p1, (i, st.pos, st1.pos) :: n1, by simp [e1], ?_⟩, h3⟩
+    intro c hc
+    rcases List.mem_cons.mp hc with rfl | hc
+    · refine ⟨Nat.le_refl _, by simp only; omega, Nat.le_refl _, fun hi => ?_⟩
+      simp only at hi ⊢
+      rcases hg.1 with hne | hle
+      · exact absurd hi hne
+      · omega
+    · exact c1 c hc
+  | backref i =>
+    intro _ _ st k res h
+    simp only [m] at h
+    split at h
+    · split at h
+      · exact ⟨_, (ExtL.step g L st _).weaken (by simp [minLen]), h⟩
+      · cases h
+    · cases h
+  | bol ml => intro _ _ st k res h; simp only [m] at h; split at h
+              · exact ⟨st, ExtL.refl g L st, h⟩
+              · cases h
+  | eol ml => intro _ _ st k res h; simp only [m] at h; split at h
+              · exact ⟨st, ExtL.refl g L st, h⟩
+              · cases h
+  | eos => intro _ _ st k res h; simp only [m] at h; split at h
+           · exact ⟨st, ExtL.refl g L st, h⟩
+           · cases h
+  | look ahead neg r ih => intro hn; simp [noLook] at hn
+  | rep mn mx gr r ih =>
+    intro hn hg st k res h
+    simp only [noLook] at hn
+    simp only [grpMin] at hg
+    simp only [m] at h
+    exact loop_capsL (m s r) g L (minLen r) gr (ih hn hg) (s.size + 2 - st.pos) mn mx st k res h
+
+/-- whatever a look-around-free regex captured for group `g` lies inside the match and is at
+    least `L` long if every `group g` body is (take `L = 0` for the bare position fact) -/
+theorem matchAt_group_opt {s : Array Nat} {r : Re} {p : Nat} {st : St} (g L : Nat) {a b : Nat}
+    (h : matchAt s r p = some st) (hn : noLook r = true) (hl : grpMin g L r = true)
+    (hg : st.group g = some (a, b)) : p ≤ a ∧ a + L ≤ b ∧ b ≤ st.pos := by
+  obtain ⟨st', ⟨_, new, e1, c1⟩, h3⟩ := m_capsL s g L r hn hl ⟨p, []⟩ some st h
+  simp at h3; subst h3
+  simp only [List.append_nil] at e1
+  simp only [St.group, capOf, e1] at hg
+  split at hg
+  · rename_i i a' b' hf
+    simp only [Option.some.injEq, Prod.mk.injEq] at hg
+    obtain ⟨rfl, rfl⟩ := hg
+    have hmem := List.mem_of_find?_eq_some hf
+    have hi : i = g := by simpa using List.find?_some hf
+    have := c1 _ hmem
+    exact ⟨this.1, this.2.2.2 hi, this.2.2.1⟩
+  · cases hg
+
 end Rx
